@@ -296,12 +296,18 @@ class DeserializationMethodVisitor(
         for key, tp in discriminator.get_mapping(types).items():
             mapping[key] = self.visit(tp)
 
+        def alternative(fact: DeserializationMethodFactory, constraints):
+            method = fact.merge(constraints).method
+            # DiscriminatorMethod has already checked that data is a dict, and passes
+            # it wrapped in Discriminated, which a dict coercion would refuse
+            return method.method if isinstance(method, CoercerMethod) else method
+
         def factory(constraints: Optional[Constraints], _) -> DeserializationMethod:
             from apischema import settings
 
             return DiscriminatorMethod(
                 self.aliaser(discriminator.alias),
-                {key: fact.merge(constraints).method for key, fact in mapping.items()},
+                {key: alternative(fact, constraints) for key, fact in mapping.items()},
                 settings.errors.missing_property,
                 preformat_error(settings.errors.one_of, list(mapping)),
             )
